@@ -230,7 +230,8 @@ CallFn(C, name, args, st) ==
    IF l.ok /\ l.v.t # "fn" THEN RV(VVoid, Fault(st, "stuck:notfn"))
    ELSE IF fi = 0 THEN
         IF name \in Builtins THEN
-             LET r == EvalList(C, args, 1, <<>>, st) IN
+             LET r == IF HasDev(C, "NATIVE_ARGS_RTL") THEN EvalListRTL(C, args, Len(args), <<>>, st)   \* builtins are C calls too
+                      ELSE EvalList(C, args, 1, <<>>, st) IN
              IF Bad(r.st) THEN RV(VVoid, r.st) ELSE Builtin(C, name, r.vs, r.st)
         ELSE RV(VVoid, Fault(st, "stuck:unbound"))
    ELSE LET fn == C.p.funcs[fi]
